@@ -19,6 +19,20 @@ kept below as examples of what the repaired code does (and are replayed first by
 namespace Qx.C10
 open Qx.C04
 
+/-! ### open finding: a white space keep-alive ends the session -/
+
+/-- **Defect (open, `C10:whitespace-keepalive-ends-connection`).**  RFC 6120 §4.6.1 allows white space between elements as a
+keep-alive.  `XmppSocket::processData` reports it as a null element, `handlePacketReceived` hands that to the current listener,
+every listener rejects it: in an established session the client reports an error, closes the stream and is not connected any
+more.  (The other theorems of this file hold for histories with white space too — the client stays *consistent* — but it does
+lose a healthy connection.)  Suggested fix: `fixes/C10-whitespace-keepalive.diff`. -/
+theorem C10_defect_whitespace_keepalive_ends_session :
+    ∃ (cfg : Cfg) (script : List Ev),
+      isConnected (run (init cfg) script).1 = true ∧
+      isConnected (step (run (init cfg) script).1 .recvWhitespace).1 = false ∧
+      Out.sig .error ∈ (step (run (init cfg) script).1 .recvWhitespace).2 :=
+  ⟨{ plainOk := true }, [.connectToServer, .socketConnected] ++ flowSaslBind, by decide⟩
+
 /-! ### after the cut -/
 
 /-- **The cut leaves a disconnected client with no session reported.**  After ANY history that ends with a live connection,
@@ -64,9 +78,12 @@ theorem request_while_disconnected_fails (s : St) (hc : s.conn ≠ .connected) (
 
 /-! ### the next attempt starts from scratch -/
 
-/-- **Per-connection reset.**  After ANY history with a live connection, cut + reconnect puts EVERY negotiation field back
-to its initial value: listener, stream id/version seen, encrypted, header cache, parser state, authenticated, session flag,
-stream-management enabled/resumed, ack manager, redirect target, and the bind2 result.
+/-- **Per-connection reset (12 model fields + the bind2 result).**  After ANY history with a live connection, cut + reconnect
+puts the negotiation fields of the MODEL back to their initial values: the 12 fields of `negView` (listener, stream id seen,
+stream version seen, encrypted, header cache, parser wedged, authenticated, session flag, stream-management enabled / resumed,
+ack manager enabled, redirect target) and `bind2Bound`.  C++ state without a model field is outside this theorem: `streamFrom`,
+`authenticationMethod`, the carbon manager's `m_enabled/m_requested`, FAST `m_tokenChanged`, the resume location
+`m_resumeHost/m_resumePort` (from `<enabled location=…/>`), the DNS/SRV address list and its indices (TryNext fallback).
 (Deliberately kept across connections: resumption data, outstanding requests of a resumable stream, unacknowledged stanzas,
 the CSI state; `bindAvail`, `smAvail`, `csiAvail` are overwritten by the next features element before any use.) -/
 theorem per_connection_reset (cfg : Cfg) (script : List Ev)
@@ -210,7 +227,10 @@ theorem next_attempt_succeeds_legacy (cfg : Cfg) (script : List Ev)
   dsimp only
   exact ⟨List.mem_append_right _ a.1, isConnected_of _ a.2.1.conn a.2.1.sess, a.2.1.auth, a.2.2.1⟩
 
-/-- **The next attempt succeeds — every conforming flow, every cut point.**  `Flow` lists the conforming server scripts
+/-- **The next attempt succeeds — each of the 11 named conforming flows, every cut point.**  This is a theorem about the 11
+constructors of `Flow`, not about every conforming server: the product {STARTTLS?} × {SASL | SASL2 | legacy | legacy as feature}
+× {bind | bind2} × {SM none | enable | resume ok | resume refused} × {CSI?} × {redirect?} has members that are not in `Flow`
+(they are exercised by the harness policies only).  `Flow` lists these conforming server scripts
 (SASL PLAIN / SCRAM incl. the server-signature step / SASL2+bind2 / SASL2+FAST token / legacy, with or without STARTTLS, classic
 bind with `<enable/>`, `<resume/>` accepted, `<resume/>` refused followed by bind and `<enable/>`, see-other-host followed by a
 full flow); `fl.applicable cfg canResume` says that the configuration allows the flow and, for the resumption flows, that the
